@@ -3733,7 +3733,20 @@ static hawk_val_t* eval_expression0 (hawk_rtx_t* rtx, hawk_nde_t* nde)
 
 	HAWK_ASSERT (nde->type >= HAWK_NDE_GRP && (nde->type - HAWK_NDE_GRP) < HAWK_COUNTOF(__evaluator));
 
+	/* perform the depth check before descending into the expression.
+	 * the parser builds a left-leaning chain like a+a+a+... in a loop
+	 * without counting the depth. so the depth of the tree handed over
+	 * to the evaluator is not bounded by the parse-time limit. */
+	if (rtx->hawk->opt.depth.s.expr_run > 0 &&
+	    rtx->depth.expr >= rtx->hawk->opt.depth.s.expr_run)
+	{
+		hawk_rtx_seterrnum (rtx, &nde->loc, HAWK_EEXPRNST);
+		return HAWK_NULL;
+	}
+
+	rtx->depth.expr++;
 	v = __evaluator[nde->type - HAWK_NDE_GRP](rtx, nde);
+	rtx->depth.expr--;
 
 	if (HAWK_UNLIKELY(v && rtx->exit_level >= EXIT_GLOBAL))
 	{
